@@ -117,9 +117,16 @@ class WrappedInstance:
     This is needed to clean it up from the cache after the instance reference died.
     """
 
+    instance_id: int = field(init=False, default=None)
+    """
+    The id of the instance.
+    This is needed to clean it up from the instance index after the instance reference died.
+    """
+
     def __post_init__(self, instance: Symbol):
         self.instance_reference = weakref.ref(instance)
         self.instance_type = type(instance)
+        self.instance_id = id(instance)
 
     @property
     def instance(self) -> Optional[Symbol]:
@@ -227,10 +234,21 @@ class SymbolGraph(metaclass=SingletonMeta):
 
         :param wrapped_instance: The instance to remove.
         """
-        self._instance_index.pop(id(wrapped_instance.instance), None)
+        # The instance may be dead already (its id may even belong to a new object), so the index entry is looked up by
+        # the id that was recorded when the node was added and only removed if it still belongs to this node.
+        if self._instance_index.get(wrapped_instance.instance_id) is wrapped_instance:
+            del self._instance_index[wrapped_instance.instance_id]
         self._class_to_wrapped_instances[wrapped_instance.instance_type].remove(
             wrapped_instance
         )
+        # The node index is reused by the instance graph for nodes that are added later, forget the relations of this
+        # node such that a new relation between new nodes does not look like an already known one.
+        for source_index, target_index, relation in list(
+            self._instance_graph.in_edges(wrapped_instance.index)
+        ) + list(self._instance_graph.out_edges(wrapped_instance.index)):
+            self._relation_index.get(relation.wrapped_field, set()).discard(
+                (source_index, target_index)
+            )
         self._instance_graph.remove_node(wrapped_instance.index)
 
     def remove_dead_instances(self):
